@@ -83,6 +83,40 @@ def tables():
     }
 
 
+def py_val(v):
+    if isinstance(v, dict):
+        return {"d": [[k, py_val(x)] for k, x in v.items()]}
+    return v
+
+
+def row_case(ctx, rng, process_row):
+    """One generated row of cells with 1-3 token headers through `process_row` and `Spell.processRow`."""
+    dl = rng.choice(["default", "default", "en", "fr", "English"])
+    cols = rng.sample(["label", "hint", "media", "bind", "x"], rng.randint(1, 3))
+    subs = ["en", "fr", "English", "image", "relevant", dl]
+    toks = []
+    for _ in range(rng.randint(1, 6)):
+        t = [rng.choice(cols)]
+        r = rng.random()
+        if r < 0.6:
+            t.append(rng.choice(subs))
+            if rng.random() < 0.25:
+                t.append(rng.choice(subs))
+        if t not in toks:
+            toks.append(t)
+    cells = [[t, f"v{j}"] for j, t in enumerate(toks)]
+    key = {"::".join(t): tuple(t) for t in toks}
+    row = {"::".join(t): v for t, v in cells}
+    try:
+        py = [[k, py_val(v)] for k, v in process_row("survey", row, key, dl).items()]
+    except Exception as e:  # noqa: BLE001
+        py = "error: " + type(e).__name__
+    m = ctx.driver.call("spell.row", dl=dl, cells=cells)
+    ctx.count("corr:row")
+    if m != py:
+        ctx.mismatch("Spell.processRow vs process_row", {"dl": dl, "cells": cells}, py, m)
+
+
 def run(ctx, n):
     from pyxform import aliases
     from pyxform.errors import PyXFormError
@@ -167,6 +201,9 @@ def run(ctx, n):
             m = ctx.driver.call("spell.rowflat", row=[[a, b] for a, b in rowd.items()], key=[[a, b[0]] for a, b in key.items()])
             if m != py:
                 ctx.mismatch("Spell.processRowFlat vs process_row", {"row": rowd}, py, m)
+    # ---- process_row / merge_dicts on nested headers (translations, groups, the default language as a suffix)
+    for i in range(n // 2):
+        row_case(ctx, rng, process_row)
     ctx.count("corr:cases", n)
     ctx.count("corr:unsupported", unsupported)
     ctx.notes["model_fragment"] = (
